@@ -832,7 +832,13 @@ impl Check for C10Check {
                     }
                     Ok(g) => {
                         log.u64(matches!(g, Got::Ok { .. }) as u64);
-                        if let Some((what, detail)) = compare(&g, &exp) {
+                        let cmp = compare(&g, &exp).filter(|(what, _)| {
+                            // a rejected build is a violation only for a CONSISTENT event (no fault injected):
+                            // the statement lists when the build must fail, it does not forbid an
+                            // implementation that refuses more inconsistent events than it lists
+                            !(what == "rejected-consistent-event" && scn.fault.is_some())
+                        });
+                        if let Some((what, detail)) = cmp {
                             viol.push(Violation {
                                 invariant: format!("C10.{what}"),
                                 signature: format!("{what}:{fault_kind}"),
